@@ -44,7 +44,8 @@ def bad : Ans := { model := "bad-op", verdict := "skip" }
 
 /-- verdict from the expected (spec) result and the implementation's result -/
 def judge (pfx : String) (expected impl : String) (whyInvalid : String) : String :=
-  if impl == expected then "ok"
+  if impl.startsWith "PANIC" then "FAIL:" ++ pfx ++ "-panic"
+  else if impl == expected then "ok"
   else if impl == "goon" then "FAIL:" ++ pfx ++ "-forwarded-" ++ whyInvalid
   else if expected == "goon" then "FAIL:" ++ pfx ++ "-rejected-valid"
   else "FAIL:" ++ pfx ++ "-wrong-rejection"
@@ -102,10 +103,17 @@ def runBasic (f : List String) (impl : String) : Ans :=
     match productFlag p, (splitList rules "/").mapM basicRule, (if hdr == "n" then some [] else unhex hdr) with
     | some p', some rs, some auth =>
       let tbl := if p' then some rs else none
-      let m := renderOutcome (basicHandler b64StdDecode idealVerifyPw tbl auth)
+      let mo := basicHandler b64StdDecode idealVerifyPw tbl auth
+      let m := renderOutcome mo
       let why := basicWhy tbl auth
-      -- C51_forward_iff_basic: the model IS the specification, so the model's answer is what the property demands
-      { model := m, verdict := judge "basic" m impl why,
+      -- C51_forward_iff_basic: the model IS the specification for forward/reject; the documented rejection
+      -- carries the realm as an RFC 7235 quoted-string (challengeSpec)
+      let dirty := match tbl.bind firstMatch with
+        | some r => !realmClean r.realm
+        | none => false
+      let verdict :=
+        if mo != .goOn && dirty && impl == m then "FAIL:realm-unescaped" else judge "basic" m impl why
+      { model := m, verdict := verdict,
         tags := ["ba", "ba-" ++ why] ++ (if why == "valid" || why == "badpw" || why == "nouser" then ["nt"] else []) }
     | _, _, _ => bad
   | _ => bad
@@ -230,7 +238,7 @@ def runJwt (f : List String) (impl : String) : Ans :=
         | none => .goOn
         | some r =>
           if jwtValidB idealVerifyJws (·.claims) (·.alg) (·.alg) jwtNow r.keys h then .goOn
-          else .resp 401 (challenge "Bearer" r.realm)
+          else .resp 401 (challengeSpec "Bearer" r.realm)
       let why := jwtWhy tbl h
       let verdict :=
         if impl == renderOutcome expected then "ok"
@@ -238,7 +246,10 @@ def runJwt (f : List String) (impl : String) : Ans :=
           (if why == "KEYALG" then "FAIL:jwt-key-alg-ignored"
            else if why == "TIMECLAIM" then "FAIL:jwt-time-claim-ignored"
            else "FAIL:jwt-forwarded-" ++ why)
+        else if impl.startsWith "PANIC" then "FAIL:jwt-panic"
         else if expected == .goOn then "FAIL:jwt-rejected-valid"
+        else if impl == m && (match tbl.bind firstMatch with | some r => !realmClean r.realm | none => false)
+          then "FAIL:realm-unescaped"
         else "FAIL:jwt-wrong-rejection"
       { model := m, verdict := verdict,
         tags := ["jw", "jw-" ++ why] ++
@@ -293,7 +304,7 @@ def symAtoi (s : SStr) : Option Int :=
       | none => none
     | none => none           -- a checksum is not a decimal number (22 base64url characters of an md5)
 
-def offOK (n : Int) : Bool := (3600 ≤ n && n ≤ 100000000) || (-100000000 ≤ n && n ≤ -3600)
+def offOK (n : Int) : Bool := -100000000 ≤ n && n ≤ 100000000
 
 def inCharset (extra : List UInt8) (c : UInt8) : Bool := isAlnum c || extra.contains c
 
@@ -499,6 +510,258 @@ def runBlockReq (f : List String) (impl : String) : Ans :=
     | _, _, _, _, _ => bad
   | _ => bad
 
+
+/-! ## loaders -/
+
+def loaderVerdict (cls : String) (m impl : String) : String :=
+  if impl.startsWith "PANIC" then "FAIL:loader-panic"
+  else if impl == m then "ok"
+  else if impl == "err" then "FAIL:" ++ cls ++ "-rejects-valid"
+  else if m == "err" then "FAIL:" ++ cls ++ "-accepts-invalid"
+  else "FAIL:" ++ cls ++ "-wrong-result"
+
+def bytesLe : Bytes → Bytes → Bool
+  | [], _ => true
+  | _ :: _, [] => false
+  | a :: as, b :: bs => a < b || (a == b && bytesLe as bs)
+
+def insertSorted (e : Bytes × Bytes) : List (Bytes × Bytes) → List (Bytes × Bytes)
+  | [] => [e]
+  | x :: xs => if bytesLe e.1 x.1 then e :: x :: xs else x :: insertSorted e xs
+
+/-- the Go map built in file order, rendered with sorted keys -/
+def renderUserMap (ents : List (Bytes × Bytes)) : String :=
+  let keys := ents.map (·.1) |>.eraseDups
+  let m := keys.filterMap fun k => (lookupLast ents k).map fun h => (k, h)
+  let sorted := m.foldl (fun acc e => insertSorted e acc) []
+  if sorted.isEmpty then "ok:_" else "ok:" ++ ",".intercalate (sorted.map fun e => hexField e.1 ++ "=" ++ hexField e.2)
+
+def runLoadUser (f : List String) (impl : String) : Ans :=
+  match f with
+  | [hx] =>
+    match unhex hx with
+    | some bs =>
+      if bs.length > 4096 || bs.any (· ≥ 128) then bad
+      else
+        let r := readUserFile bs
+        let m := match r with
+          | none => "err"
+          | some ents => renderUserMap ents
+        { model := m, verdict := loaderVerdict "userfile" m impl,
+          tags := ["lu", if r.isSome then "lu-accept" else "lu-reject"] ++
+            (if (scanLines bs).any userLineRelevant then ["nt"] else []) }
+    | none => bad
+  | _ => bad
+
+def printableB (b : Bytes) : Bool := b.all fun c => 32 ≤ c && c ≤ 126 && c != 34 && c != 92
+
+def optHex (s : String) : Option (Option Bytes) :=
+  if s == "nil" then some none
+  else match unhex s with
+    | some b => if printableB b then some (some b) else none
+    | none => none
+
+def condOf (s : String) : Option (Option Bool) :=
+  if s == "nil" then some none else if s == "ok" then some (some true) else if s == "bad" then some (some false) else none
+
+def slNodesFile (s : String) : Option (Option (List SlNodeFile)) :=
+  if s == "nil" || s == "null" then some none
+  else if s == "_" then some (some [])
+  else do
+    let ns ← (s.splitOn "+").mapM fun nd =>
+      match nd.splitOn ":" with
+      | [t, p] => do
+        let t' ← unhex t
+        let p' ← unhex p
+        if printableB t' && printableB p' then some ({ ty := t', param := p' } : SlNodeFile) else none
+      | _ => none
+    pure (some ns)
+
+def slRuleFile (s : String) : Option (Option SlRuleFile) :=
+  if s == "null" then some none
+  else match s.splitOn "," with
+    | [c, ck, ek, ns] => do
+      let c' ← condOf c
+      let ck' ← optHex ck
+      let ek' ← optHex ek
+      let ns' ← slNodesFile ns
+      pure (some { cond := c', ck := ck', ek := ek', nodes := ns' })
+    | _ => none
+
+def runLoadSlink (f : List String) (impl : String) : Ans :=
+  match f with
+  | [ver, cfg] =>
+    let hasV := ver == "v"
+    if ver != "v" && ver != "nil" then bad
+    else
+      let cfg' : Option (Option (List (Option SlRuleFile))) :=
+        if cfg == "nil" || cfg == "null" then some none
+        else if cfg == "_" then some (some [])
+        else ((cfg.splitOn "/").mapM slRuleFile).map some
+      match cfg' with
+      | none => bad
+      | some c =>
+        let r := newData hasV c
+        let m := match r with
+          | none => "err"
+          | some rs => if rs.isEmpty then "ok:_" else
+              "ok:" ++ "/".intercalate (rs.map fun x => hexField x.ck ++ ";" ++ hexField x.ek ++ ";" ++ toString x.nodes.length)
+        { model := m, verdict := loaderVerdict "securelink-conf" m impl,
+          tags := ["ls", if r.isSome then "ls-accept" else "ls-reject"] ++ (if hasV && c.isSome then ["nt"] else []) }
+  | _ => bad
+
+def blockRuleFile (s : String) : Option BlockRuleFile :=
+  match s.splitOn "," with
+  | [c, n, a] => do
+    let c' ← condOf c
+    let n' ← optHex n
+    let a' ← if a == "nil" then some none else
+      match a.splitOn ";" with
+      | [cmd, ps] => do
+        let cmd' ← optHex cmd
+        let ps' ← if ps == "nil" || ps == "null" then some none else
+          match canonNat ps with
+          | some k => if k ≤ 3 then some (some k) else none
+          | none => none
+        pure (some (cmd', ps'))
+      | _ => none
+    pure { cond := c', name := n', action := a' }
+  | _ => none
+
+def runLoadBlock (f : List String) (impl : String) : Ans :=
+  match f with
+  | [ver, cfg, style] =>
+    if (ver != "v" && ver != "nil") || (style != "u" && style != "l") then bad
+    else
+      let hasV := ver == "v"
+      -- outer option: Config present; inner: the product's list present
+      let parsed : Option (Option (Option (List BlockRuleFile))) :=
+        if cfg == "nil" || cfg == "null" then some none
+        else if cfg == "_" then some (some (some []))       -- no product at all: nothing to check, 0 rules
+        else if cfg == "pnull" then some (some none)
+        else if cfg == "pempty" then some (some (some []))
+        else ((cfg.splitOn "/").mapM blockRuleFile).map fun rs => some (some rs)
+      match parsed with
+      | none => bad
+      | some c =>
+        let r : Option Nat := match c with
+          | none => none
+          | some prod => blockConfLoad hasV prod
+        let m := match r with
+          | none => "err"
+          | some n => "ok:" ++ toString n
+        { model := m, verdict := loaderVerdict "block-conf" m impl,
+          tags := ["lb", if r.isSome then "lb-accept" else "lb-reject"] ++ (if hasV && c.isSome then ["nt"] else []) }
+  | _ => bad
+
+inductive IpLine where
+  | blank
+  | garbage
+  | range (lo hi : Nat) (one : Bool)
+
+def garbageOK (b : Bytes) : Bool :=
+  match b with
+  | [] => false
+  | c :: _ =>
+    c != 35 && c != 32 && c != 9 && printableB b &&
+    b.any fun x => (103 ≤ x && x ≤ 122) || (71 ≤ x && x ≤ 90) || x == 95
+
+def ipLine (s : String) : Option IpLine :=
+  if s == "e" then some .blank
+  else if s.startsWith "c:" then
+    match unhex (s.drop 2).toString with
+    | some b => if printableB b then some .blank else none
+    | none => none
+  else if s.startsWith "g:" then
+    match unhex (s.drop 2).toString with
+    | some b => if garbageOK b then some .garbage else none
+    | none => none
+  else if s.startsWith "r:" then
+    match (s.drop 2).toString.splitOn ":" with
+    | [rg, fmt] => do
+      let r ← rangeOf 16 rg
+      if fmt == "one" then (if r.1 == r.2 then some (.range r.1 r.2 true) else none)
+      else if ["sp", "tab", "sp3", "mix"].contains fmt then some (.range r.1 r.2 false)
+      else none
+    | _ => none
+  else none
+
+/-- CheckAndLoad: (single counter, pair counter) against the limits; none = error -/
+def ipLoad (limS limP : Nat) : List IpLine → Nat → Nat → Option (List (Nat × Nat))
+  | [], _, _ => some []
+  | .blank :: rest, s, p => ipLoad limS limP rest s p
+  | .garbage :: _, _, _ => none
+  | .range lo hi _ :: rest, s, p =>
+    if lo ≠ hi ∧ (lo > hi ∨ isV4Mapped lo ≠ isV4Mapped hi) then none
+    else
+      let s' := if lo = hi then s + 1 else s
+      let p' := if lo = hi then p else p + 1
+      if s' > limS ∨ p' > limP then none
+      else (ipLoad limS limP rest s' p').map ((lo, hi) :: ·)
+
+def runLoadIP (f : List String) (impl : String) : Ans :=
+  match f with
+  | [ip, metaS, lines] =>
+    match ipN 16 ip, (splitList lines "/").mapM ipLine with
+    | some ip', some ls =>
+      let singles := (ls.filter fun l => match l with | .range lo hi _ => lo == hi | _ => false).length
+      let pairs := (ls.filter fun l => match l with | .range lo hi _ => lo != hi | _ => false).length
+      let lims : Option (Nat × Nat) :=
+        if metaS == "-" then some (singles, pairs)
+        else match metaS.splitOn "." with
+          | [a, b] => match canonNat a, canonNat b with
+            | some x, some y => if x ≤ 99 && y ≤ 99 then some (x, y) else none
+            | _, _ => none
+          | _ => none
+      match lims with
+      | none => bad
+      | some (ls', lp) =>
+        let r := ipLoad ls' lp ls 0 0
+        let m := match r with
+          | none => "err"
+          | some rs => if blockAccept rs ip' == .close then "ok:blocked" else "ok:free"
+        { model := m, verdict := loaderVerdict "iptable" m impl,
+          tags := ["li", if r.isSome then "li-accept" else "li-reject"] ++ (if ls.isEmpty then [] else ["nt"]) }
+    | _, _ => bad
+  | _ => bad
+
+/-- go-jose's JSONWebKey.UnmarshalJSON verdict per generated element kind (contract, exercised):
+    0 = rejected, 1 = accepted usable key, 2 = accepted and it is the probe token's key, 3 = accepted as a nil key -/
+def jwkKind (k : String) : Option Nat :=
+  if k == "oct0" then some 2
+  else if ["oct1", "octempty", "rsa", "ec"].contains k then some 1
+  else if k == "null" then some 3
+  else if ["octnok", "octbad64", "rsanon", "ecoff", "ecnocrv", "nokty", "unkkty", "lckty", "num", "str", "emptyobj"].contains k then some 0
+  else none
+
+def nilDeref : String := "PANIC:runtime error: invalid memory address or nil pointer dereference"
+
+/-- validateToken over the loaded keys with a valid HS256 token of key oct0 -/
+def probeKeys : List Nat → String
+  | [] => "resp:401:" ++ hexField (challenge "Bearer" [82])
+  | 2 :: _ => "goon"
+  | 3 :: _ => nilDeref
+  | _ :: rest => probeKeys rest
+
+def runLoadKeys (f : List String) (impl : String) : Ans :=
+  match f with
+  | [top, elems] =>
+    match (splitList elems "+").mapM jwkKind with
+    | none => bad
+    | some ks =>
+      if !["arr", "obj", "garbage", "empty", "trail", "ws"].contains top then bad
+      else
+        let accept := (top == "arr" || top == "ws") && !ks.contains 0
+        let m := if accept then (let p := probeKeys ks; if p == nilDeref then p else "ok:" ++ toString ks.length ++ ":" ++ p) else "err"
+        -- specification: a JWK file "must follow RFC 7517": a null element is not a key and must be rejected
+        let verdict :=
+          if accept && ks.contains 3 then
+            (if impl == "err" then "ok" else if impl == m then "FAIL:jwt-null-key-accepted" else "FAIL:keyfile-wrong-result")
+          else loaderVerdict "keyfile" m impl
+        { model := m, verdict := verdict,
+          tags := ["lk", if accept then "lk-accept" else "lk-reject"] ++ (if ks.isEmpty then [] else ["nt"]) }
+  | _ => bad
+
 def run (op impl : String) : Ans :=
   match op.splitOn " " with
   | [kind, body] =>
@@ -508,6 +771,11 @@ def run (op impl : String) : Ans :=
     else if kind == "sl" then runSlink f impl
     else if kind == "bg" then runBlockGlobal f impl
     else if kind == "br" then runBlockReq f impl
+    else if kind == "lu" then runLoadUser f impl
+    else if kind == "ls" then runLoadSlink f impl
+    else if kind == "lb" then runLoadBlock f impl
+    else if kind == "li" then runLoadIP f impl
+    else if kind == "lk" then runLoadKeys f impl
     else bad
   | _ => bad
 
